@@ -140,7 +140,9 @@ pub fn impulse(args: &[String]) {
 	let pre: u64 = args.get(3).map_or(0, |x| x.parse().expect("pre"));
 	for kind in IMPULSE {
 		for n in lo..=hi {
-			if n < min_n(kind) || (*kind == "WSMA" && n > 127) {
+			// (lengths a constructor rejects -- WSMA beyond PeriodType::MAX / 2 -- yield no instance and are skipped; an instance
+			// that IS returned must have the documented profile of its length)
+			if n < min_n(kind) {
 				continue;
 			}
 			let Some(mut m) = mk(kind, &json!([n]), 0.0, 1.0) else { continue };
